@@ -891,10 +891,24 @@ def _cmp0(p: Poly, op) -> SBool:
     return SBool("cmp", op, p)
 
 
+def _lead(p: Poly):
+    k = min(p.t.keys(), key=lambda m: (len(m), m))
+    return p.t[k]
+
+
 def _div(n: Poly, d: Poly) -> Poly:
+    """n / d with numerator and denominator normalised to leading coefficient 1, so that quotients that differ only by a
+    constant factor share one definitional atom"""
     if not n.t:
         return ZERO
-    return CTX.def_div(n, d)
+    cn, cd = _lead(n), _lead(d)
+    if cn != 1:
+        n = n.scale(1 / cn)
+    if cd != 1:
+        d = d.scale(1 / cd)
+    q = CTX.def_div(n, d)
+    f = cn / cd
+    return q if f == 1 else q.scale(f)
 
 
 def _floordivmod(a: Sym, b: Sym):
@@ -1027,6 +1041,8 @@ class Ctx:
         self.ndef = 0
         self.uf_apps = []      # (name, args tuple z3, result atom) for reporting
         self.stub_log = []
+        self.lemmas = []
+        self.div_info = {}
         self.memo = {}         # structural hash-consing of definitional atoms (per path)
 
     def note_mono(self, m):
@@ -1149,6 +1165,11 @@ class Ctx:
                             z3.Implies(z3.And(dz_ < 0, nz_ >= 0), qz_ <= 0), z3.Implies(z3.And(dz_ < 0, nz_ <= 0), qz_ >= 0),
                             z3.Implies(z3.And(dz_ > 0, nz_ <= dz_), qz_ <= 1), z3.Implies(z3.And(dz_ > 0, nz_ >= dz_), qz_ >= 1),
                             z3.Implies(z3.And(dz_ > 0, nz_ >= -dz_), qz_ >= -1), z3.Implies(nz_ == dz_, qz_ == 1)))
+        # threshold facts for the clipping constants that numeric code compares quotients with (valid for any constant c)
+        for c_ in (1e-10, 1e-8, 1e-6):
+            cz_ = _rv(frac(c_))
+            self.add_def(z3.And(z3.Implies(z3.And(dz_ > 0, nz_ >= cz_ * dz_), qz_ >= cz_),
+                                z3.Implies(z3.And(dz_ > 0, nz_ <= cz_ * dz_), qz_ <= cz_)))
         return q
 
     def lemma_normalised(self, quotients, numerators, d: Poly):
@@ -1327,8 +1348,30 @@ def assume(f):
     CTX.feas.add(f.z3())
 
 
+def lemma(f):
+    """a fact the harness states about the current path (e.g. a bound on a quotient atom that follows non-linearly from the
+    assumptions).  It is used like an assumption when the claims are decided, but ONLY after the exact solver has proved it from
+    the path's constraints (oblig.decide_path); an unproved lemma makes the obligation inconclusive."""
+    if isinstance(f, (bool, np.bool_)):
+        if not f:
+            raise StubMiss("harness lemma is false")
+        return
+    f = SBool.of(f)
+    if f.k == "const":
+        return lemma(f.a)
+    if not CTX.active:
+        return
+    CTX.lemmas.append(f)
+    CTX.feas.add(f.z3())
+
+
+def div_atoms():
+    """the quotient atoms created so far on this path, as Syms"""
+    return [Sym(Poly.atom(REG.atoms[i])) for i in CTX.div_info]
+
+
 class PathResult:
-    __slots__ = ("trace", "pc", "defs", "monos", "kind", "value", "stub_log", "uf_apps", "ndef")
+    __slots__ = ("trace", "pc", "defs", "monos", "kind", "value", "stub_log", "uf_apps", "ndef", "lemmas")
 
     def __init__(self, ctx: Ctx, kind, value):
         self.trace = list(ctx.trace)
@@ -1340,6 +1383,7 @@ class PathResult:
         self.stub_log = list(ctx.stub_log)
         self.uf_apps = list(ctx.uf_apps)
         self.ndef = ctx.ndef
+        self.lemmas = list(ctx.lemmas)
 
 
 def mono_facts(monos):
